@@ -244,6 +244,11 @@ def float_roundtrip(rng, tier):
                     fails.append(dict(clause='log_finite', signature=sig, q=q)); continue
                 if float(rot.norm()) > math.pi * (1 + 8 * eps):
                     fails.append(dict(clause='log_rotation_norm_at_most_pi', signature=sig, norm=float(rot.norm())))
+                if g in ('RxSO3', 'Sim3'):
+                    # the scale is well conditioned over the whole range [e^-8, e^8]: sigma = log(s) to working accuracy, also for s << 1
+                    s_dt = float(X.tensor()[-1].double()); sg = float(xt[-1])
+                    if abs(sg - math.log(s_dt)) > 16 * eps * (1 + abs(math.log(s_dt))):
+                        fails.append(dict(clause='log_scale_is_log_of_scale', signature=sig + ('/s<1' if s_dt < 1 else '/s>=1'), err=abs(sg - math.log(s_dt)), s=s_dt))
                 M1, M0 = x.Exp().matrix().double(), X.matrix().double()
                 scale_m = float(M0[:3, :3].abs().max())
                 if float((M1[:3, :3] - M0[:3, :3]).abs().max()) > tol * scale_m * 4:
